@@ -1,6 +1,6 @@
 (* GENERATED from C11.v.in by tools/strlit.py — edit the .in file *)
 (* C11 — run formatting becomes exactly the corresponding inline elements. *)
-From Mammoth Require Import Api Convert ConvertSpec ConvertRules ReaderSpec ReaderFacts.
+From Mammoth Require Import Api Cli Convert ConvertSpec ConvertRules ReaderSpec ReaderFacts MiscSpec MiscFacts HtmlCollapseSpec HtmlCollapse.
 Local Open Scope N_scope.
 
 (* ---------- how the reader decides that a property is on ---------- *)
@@ -57,6 +57,14 @@ Section Run.
   Proof. exact (plain_run_adds_nothing o cm cs hdr st). Qed.
 End Run.
 
+(* the formatting of one run never extends over the text of another: every leaf a run produces sits under exactly THAT
+   run's wrappers; and by C04_paths collapsing only joins elements along legal matches with identical attributes *)
+Theorem C11_formatting_local (o : copts) (cm : list comment) cs sid sname bold italic underline strike allcaps smallcaps valign highlight hdr st ns st' :
+  visit o cm (DRun cs sid sname bold italic underline strike allcaps smallcaps valign highlight) hdr st = Ok (ns, st') ->
+  Forall (fun p => exists rest, fst p = run_wrapper_tags o sid sname bold italic underline strike allcaps smallcaps valign highlight ++ rest)
+         (leaves ns).
+Proof. exact (visit_run_leaves o cm cs sid sname bold italic underline strike allcaps smallcaps valign highlight hdr st ns st'). Qed.
+
 Example C11_witness :
   let o := mkOpts [] [] true ConvDataUri in
   run_wrapper_tags o None None true true false true false false s_superscript None
@@ -71,3 +79,4 @@ Print Assumptions C11_run.
 Print Assumptions C11_wrappers_nest.
 Print Assumptions C11_default_elements.
 Print Assumptions C11_no_formatting_no_element.
+Print Assumptions C11_formatting_local.
